@@ -274,7 +274,11 @@ def both_views(P, E, stats0, dv, v, enc, emit, col, order):
         rows_all = None if res is None else sorted(
             (tuple(round(float(x), 9) for x in r), tuple(bool(x) for x in a)) for r, a in zip(*res))
         bad = {}
-        if E is not None and n_all != len(E):
+        # the un-fixed COUNT is compared with the count of the never-fixed state (count == number of rows is C04's law:
+        # a pattern encoder that lists a vector it cannot decode, KF-PATTERN-ENC, breaks it without any fixing)
+        if stats0 is not None and n_all != stats0[0]:
+            bad['n_valid_without_fixed'] = [n_all, stats0[0]]
+        elif stats0 is None and E is not None and n_all != len(E):
             bad['n_valid_without_fixed'] = [n_all, len(E)]
         if stats0 is not None and n_decl != stats0[2]:
             bad['n_declared_without_fixed'] = [n_decl, stats0[2]]
